@@ -9,17 +9,17 @@ Require Import Base M_Bytecode M_Analysis M_WithMachine M_Cert P_Cert X_WMExampl
    whether reached by fall-through, return, break, continue or an exception), from inside an
    awaited __aenter__/__aexit__ coroutine (SEND, f_lasti on its inline cache) — the analysis,
    which only sees the slots below the current handler depth, returns exactly the ground truth. *)
-Theorem C02_exact_running : forall c t ct, checkk KRun c t ct = true ->
-  forall s, reach c t s ->
+Theorem C02_exact_running : forall v c t ct, checkk v KRun c t ct = true ->
+  forall s, reach v c t s ->
   forall lasti st tr, In (true, lasti, st, tr) (obs c s) ->
-  trickery c t true lasti st = TOk (expected tr).
-Proof. intros c t ct Hc s Hr lasti st tr Hin. exact (analysis_exact KRun c t ct Hc s Hr true lasti st tr Hin (or_intror (conj eq_refl eq_refl))). Qed.
+  trickery v c t true lasti st = TOk (expected tr).
+Proof. intros v c t ct Hc s Hr lasti st tr Hin. exact (analysis_exact v KRun c t ct Hc s Hr true lasti st tr Hin (or_intror (conj eq_refl eq_refl))). Qed.
 Print Assumptions C02_exact_running.
 
 (* every slot the analysis reads for a running frame lies below the trim depth and holds the
    exit method of the very manager it reports (used by C07: reads are in bounds) *)
-Theorem C02_trim_safe : forall c t ct, checkk KRun c t ct = true ->
-  forall s, reach c t s ->
+Theorem C02_trim_safe : forall v c t ct, checkk v KRun c t ct = true ->
+  forall s, reach v c t s ->
   forall lasti st tr, In (true, lasti, st, tr) (obs c s) ->
   forall x i, In x (expected tr) -> c_obj x = Some i ->
   In (VX (c_site x) i) (keep_bottom (trim_depth t lasti) st).
@@ -27,11 +27,11 @@ Proof. exact trim_safe. Qed.
 Print Assumptions C02_trim_safe.
 
 Example C02_example_inside_exit :
-  exists s, reach ex_code ex_table s /\
+  exists s, reach V312 ex_code ex_table s /\
             exists lasti st tr, In (true, lasti, st, tr) (obs ex_code s)
                                 /\ map (@c_exiting nat) (expected tr) = [true].
 Proof.
-  destruct (exec ex_code ex_table ex_path_exit (mk 0 [] [])) as [s|] eqn:E; [|vm_compute in E; discriminate].
+  destruct (exec V312 ex_code ex_table ex_path_exit (mk 0 [] [])) as [s|] eqn:E; [|vm_compute in E; discriminate].
   exists s. split; [eapply exec_reach; [apply reach_init|exact E]|].
   vm_compute in E. inversion E; subst; clear E.
   eexists _, _, _. split; [left; reflexivity|reflexivity].
